@@ -1,6 +1,8 @@
 import Sx.Lemmas.SafeAll
 import Sx.Lemmas.Exec
 import Sx.Sys
+import Sx.Lemmas.ShadowSize
+import Sx.Props.C19
 /-
   C08 — memory safety for all air data, chip states and buffer sizes.
 
@@ -8,19 +10,21 @@ import Sx.Sys
   argument, every answer of chip and bus (any register content, any FIFO content, any over-the-air
   length byte, any transfer failing), every history and every schedule:
 
-  * no API call and no handler invocation accesses `device->packet` outside `[0, cap)`, reads
-    the caller's frequency list outside `[0, frequencies_length)`, dereferences a NULL list,
-    divides by zero or shifts a negative value (`memBad` = every kind of undefined behaviour of
-    the model except the three below);
-  * the handle invariant `HInv` (buffer size; a registered list has `1 ≤ length ≤` its array) is
-    preserved, also across application callbacks that call back into the API.
+  * no API call and no handler invocation accesses `device->packet` outside `[0, cap)`, the
+    shadow arrays outside their 0x71 entries (every request stays within the SPI contract of
+    C19, and within it the four shadow-layer entry points stay inside the arrays:
+    Sx/Lemmas/ShadowSize.lean), reads the caller's frequency list outside
+    `[0, frequencies_length)`, dereferences a NULL list, divides by zero or shifts a negative
+    value (`memBad` = every kind of undefined behaviour of the model except the two below);
+  * the handle invariant `HInv` (buffer size; a registered list has `1 ≤ length ≤` its array) and
+    the size of the shadow arrays are preserved, also across application callbacks that call
+    back into the API.
 
   What is *not* proved here and rests on the sanitizer builds (ASan/UBSan, five buffer sizes) of
   the correspondence check: that no float→integer conversion is out of range (`castRange`; for
   the beacon C14 proves it for all documented intervals, for frequency/bit rate/deviation C12
-  proves the value is in range), that the two chip-bounded polling loops terminate (`fuel`), the
-  bounds of the shadow arrays (`oobShadow`: C01/C19), and that the length passed to the receive
-  callback does not exceed the bytes stored.
+  proves the value is in range), that the two chip-bounded polling loops terminate (`fuel`), and
+  that the length passed to the receive callback does not exceed the bytes stored.
 -/
 namespace Sx
 open Sx.Model DM
@@ -53,75 +57,62 @@ theorem busReadBuf_len (w : World) (reg n : Nat) (d : List UInt8) (h : (w.busRea
     cases h
     exact readN_length _ _ _
 
+/-- no excluded undefined behaviour; handle invariant and shadow-array size are kept -/
+def SafeOut {β : Type} (bad : UB → Prop) (P : β → Prop) : Outcome β → Prop
+  | .done b w' => P b ∧ SzOk w'
+  | .ub u w' => ¬bad u ∧ SzOk w'
 
-theorem sread_ub {c w reg n u} (h : Shadow.sread c w reg n = .ub u) : u = .oobShadow := by
-  unfold Shadow.sread Shadow.sreadMiss Shadow.sreadFill Shadow.busStep at h
-  repeat (first | split at h | cases h | rfl | dsimp only at h)
-theorem rread_ub {c w reg u} (h : Shadow.rread c w reg = .ub u) : u = .oobShadow := by
-  unfold Shadow.rread Shadow.rreadMiss Shadow.busStep1 at h
-  repeat (first | split at h | cases h | rfl | dsimp only at h)
-theorem swrite_ub {c w reg d u} (h : Shadow.swrite c w reg d = .ub u) : u = .oobShadow := by
-  unfold Shadow.swrite Shadow.swriteStore at h
-  repeat (first | split at h | cases h | rfl | dsimp only at h)
-theorem bwrite_ub {c w reg d u} (h : Shadow.bwrite c w reg d = .ub u) : u = .oobShadow := by
-  unfold Shadow.bwrite Shadow.bwriteStore at h
-  repeat (first | split at h | cases h | rfl | dsimp only at h)
-
-/-- what an application reaction may do: it leaves a handle satisfying `I` and no excluded
-    undefined behaviour -/
+/-- what an application reaction may do: it leaves a handle satisfying `I`, keeps the shadow
+    arrays' size, and runs into no excluded undefined behaviour -/
 def CbOk (bad : UB → Prop) (I : Handle → Prop) (onCb : CbEvent → Handle → World → Outcome Handle) : Prop :=
-  ∀ e h w, I h → match onCb e h w with
-    | .done h' _ => I h'
-    | .ub u _ => ¬bad u
+  ∀ e h w, I h → SzOk w → SafeOut bad I (onCb e h w)
 
-/-- **a safe program executes safely**, in either build, from any world (any chip, cache,
-    schedule of environment events, set of failing transfers) -/
-theorem execG_safe {α : Type} (bad : UB → Prop) (hsh : ¬bad .oobShadow) (I : Handle → Prop) (cached : Bool)
+/-- **a safe program within the SPI contract executes safely**, in either build, from any world
+    whose shadow arrays have their size (any chip, cache content, schedule of environment events,
+    set of failing transfers): no excluded undefined behaviour — accesses outside the shadow
+    arrays included — and the handle invariant and the array size are kept -/
+theorem execG_safe {α : Type} (bad : UB → Prop) (I : Handle → Prop) (cached : Bool)
     (onCb : CbEvent → Handle → World → Outcome Handle) (hcb : CbOk bad I onCb)
-    (p : Prog (Except Code α × Handle)) (hp : p.Safe bad I) (w : World) :
-    match execG cached onCb p w with
-    | .done rh _ => I rh.2
-    | .ub u _ => ¬bad u := by
+    (p : Prog (Except Code α × Handle)) (hp : p.Safe bad I) (hall : p.All ContractReq) (w : World) (hs : SzOk w) :
+    SafeOut bad (fun rh => I rh.2) (execG cached onCb p w) := by
   induction p generalizing w with
-  | ret a => exact hp
-  | ub u => exact hp
+  | ret a => exact ⟨hp, hs⟩
+  | ub u => exact ⟨hp, hs⟩
   | sread reg n k ih =>
     simp only [execG]
-    cases hs : Shadow.sread cached w reg n with
-    | ok r w' => exact ih r (hp r) w'
-    | ub u => cases sread_ub hs; exact hsh
+    obtain ⟨r, w', he, hs'⟩ := sread_sz (cached := cached) hs reg n hall.1
+    rw [he]; exact ih r (hp r) (hall.2 r) w' hs'
   | rread reg k ih =>
     simp only [execG]
-    cases hs : Shadow.rread cached w reg with
-    | ok r w' => exact ih r (hp r) w'
-    | ub u => cases rread_ub hs; exact hsh
+    obtain ⟨r, w', he, hs'⟩ := rread_sz (cached := cached) hs reg hall.1
+    rw [he]; exact ih r (hp r) (hall.2 r) w' hs'
   | swrite reg d k ih =>
     simp only [execG]
-    cases hs : Shadow.swrite cached w reg d with
-    | ok r w' => exact ih r (hp r) w'
-    | ub u => cases swrite_ub hs; exact hsh
+    obtain ⟨r, w', he, hs'⟩ := swrite_sz (cached := cached) hs reg d hall.1
+    rw [he]; exact ih r (hp r) (hall.2 r) w' hs'
   | bwrite reg d k ih =>
     simp only [execG]
-    cases hs : Shadow.bwrite cached w reg d with
-    | ok r w' => exact ih r (hp r) w'
-    | ub u => cases bwrite_ub hs; exact hsh
+    obtain ⟨r, w', he, hs'⟩ := bwrite_sz (cached := cached) hs reg d hall.1
+    rw [he]; exact ih r (hp r) (hall.2 r) w' hs'
   | bread reg n k ih =>
     simp only [execG]
     have hl := busReadBuf_len w reg n
-    generalize w.busReadBuf reg n = br at hl
+    have hc := busReadBuf_cache w reg n
+    generalize w.busReadBuf reg n = br at hl hc
     obtain ⟨r, w'⟩ := br
-    exact ih r (hp r (fun d e => hl d e)) w'
+    exact ih r (hp r (fun d e => hl d e)) (hall.2 r) w' (by unfold SzOk; rw [show w'.cache = w.cache from hc]; exact hs)
   | rawbread reg n k ih =>
     simp only [execG]
     have hl := busReadBuf_len w reg n
-    generalize w.busReadBuf reg n = br at hl
+    have hc := busReadBuf_cache w reg n
+    generalize w.busReadBuf reg n = br at hl hc
     obtain ⟨r, w'⟩ := br
-    exact ih r (hp r (fun d e => hl d e)) w'
+    exact ih r (hp r (fun d e => hl d e)) (hall.2 r) w' (by unfold SzOk; rw [show w'.cache = w.cache from hc]; exact hs)
   | callback e h k ih =>
     simp only [execG]
-    have hc := hcb e h w hp.1
+    have hc := hcb e h w hp.1 hs
     cases ho : onCb e h w with
-    | done h' w' => rw [ho] at hc; exact ih h' (hp.2 h' hc) w'
+    | done h' w' => rw [ho] at hc; exact ih h' (hp.2 h' hc.1) (hall h') w' hc.2
     | ub u w' => rw [ho] at hc; exact hc
 
 /-! ### the whole system: any history, re-entrant callbacks -/
@@ -143,16 +134,22 @@ def Op.Fits : Op → Prop
 def SysCfg.Fits (c : SysCfg) : Prop :=
   (∀ a, c.onRx = some a → a.ListsFit) ∧ (∀ a, c.onTx = some a → a.ListsFit) ∧ (∀ a, c.onCad = some a → a.ListsFit)
 
-theorem onCb_ok (c : SysCfg) (hc : c.Fits) : CbOk memBad (HInv c.cap) c.toCfg.onCb := by
-  intro e h w hh
+/-- the world at the start of an operation (as `Sys.step` sets it up) -/
+def startWorld (w : World) (sched : List (Nat × Env)) (faults : List (Nat × Code)) (k : Cache) : World :=
+  { w with xfer := 0, sched := sched, faults := faults, bus := [], cbs := [], cache := k }
+
+theorem logCb_ok (bad : UB → Prop) (I : Handle → Prop) : CbOk bad I logCb := fun _ _ _ hi hs => ⟨hi, hs⟩
+
+theorem onCb_ok (c : SysCfg) (hc : c.Fits) (hv : c.Valid) : CbOk memBad (HInv c.cap) c.toCfg.onCb := by
+  intro e h w hh hsz
   unfold Cfg.onCb
   cases hr : c.toCfg.reactionFor e with
-  | none => exact hh
+  | none => exact ⟨hh, hsz⟩
   | some re =>
     simp only
-    have key : ∀ o : Option Api, (∀ a, o = some a → a.ListsFit) → c.reaction o = some re →
-        (re.run h).Safe memBad (HInv c.cap) := by
-      intro o hval ho
+    have key : ∀ o : Option Api, (∀ a, o = some a → a.ListsFit) → (∀ a, o = some a → a.Valid) → c.reaction o = some re →
+        (re.run h).Safe memBad (HInv c.cap) ∧ (re.run h).All ContractReq := by
+      intro o hval hvalid ho
       cases o with
       | none => simp [SysCfg.reaction] at ho
       | some api =>
@@ -160,29 +157,35 @@ theorem onCb_ok (c : SysCfg) (hc : c.Fits) : CbOk memBad (HInv c.cap) c.toCfg.on
         split at ho
         · cases ho
         · cases ho
-          exact api_safe c.cap c.fuel api (hval api rfl) h (fun _ => hh)
-    have hall : (re.run h).Safe memBad (HInv c.cap) := by
+          exact ⟨api_safe c.cap c.fuel api (hval api rfl) h (fun _ => hh), (contract_api c.cap c.fuel api (hvalid api rfl)).all h⟩
+    have hall : (re.run h).Safe memBad (HInv c.cap) ∧ (re.run h).All ContractReq := by
       cases e with
-      | rx d l => exact key c.onRx hc.1 hr
-      | tx => exact key c.onTx hc.2.1 hr
-      | cad d => exact key c.onCad hc.2.2 hr
-    have := execG_safe memBad (by decide) (HInv c.cap) c.toCfg.cached logCb (fun _ _ _ j => j) (re.run h) hall w
+      | rx d l => exact key c.onRx hc.1 hv.1 hr
+      | tx => exact key c.onTx hc.2.1 hv.2.1 hr
+      | cad d => exact key c.onCad hc.2.2 hv.2.2 hr
+    have := execG_safe memBad (HInv c.cap) c.toCfg.cached logCb (logCb_ok _ _) (re.run h) hall.1 hall.2 w hsz
     unfold exec0
     cases hx : execG c.toCfg.cached logCb (re.run h) w with
-    | done a w' => rw [hx] at this; obtain ⟨r, h'⟩ := a; exact this
+    | done a w' => rw [hx] at this; obtain ⟨r, h'⟩ := a; exact ⟨this.1, this.2⟩
     | ub u w' => rw [hx] at this; exact this
 
-/-- the handle of a system, if there is one, satisfies the invariant -/
-def SysInv (cap : Nat) (s : Sys) : Prop := ∀ h, s.handle = some h → HInv cap h
+/-- the handle of a system, if there is one, satisfies the invariant, and the shadow arrays have
+    their size -/
+def SysInv (cap : Nat) (s : Sys) : Prop := (∀ h, s.handle = some h → HInv cap h) ∧ SzOk s.world
+
+theorem fresh_sz : Cache.fresh.size = 0x71 := Cache.fresh_wf.hs
 
 /-- **C08 (one operation).** In either build (cache on/off), for every packet-buffer size, any
     chip content, any environment schedule, any set of failing transfers, any application
-    reaction inside the callbacks: the operation has none of the excluded undefined behaviours,
-    and the handle keeps its invariant. -/
-theorem C08_step (c : SysCfg) (hc : c.Fits) (s : Sys) (hs : SysInv c.cap s) (op : Op) (hop : op.Fits) :
+    reaction inside the callbacks: the operation has none of the excluded undefined behaviours
+    — every kind the model knows except an out-of-range float conversion and exhausted loop
+    fuel; accesses outside the shadow arrays included —, and handle and shadow arrays keep their
+    invariants. -/
+theorem C08_step (c : SysCfg) (hc : c.Fits) (hv : c.Valid) (s : Sys) (hs : SysInv c.cap s) (op : Op)
+    (hop : op.Fits) (hov : op.Valid) :
     SysInv c.cap (s.step c op).1 ∧ ∀ u, (s.step c op).2 = .ub u → ¬memBad u := by
   cases op with
-  | env e => exact ⟨hs, fun u hu => by simp [Sys.step] at hu⟩
+  | env e => exact ⟨⟨hs.1, hs.2⟩, fun u hu => by simp [Sys.step] at hu⟩
   | api a sched faults =>
     unfold Sys.step
     dsimp only
@@ -193,27 +196,33 @@ theorem C08_step (c : SysCfg) (hc : c.Fits) (s : Sys) (hs : SysInv c.cap s) (op 
         intro hcr
         cases hsh : s.handle with
         | none => exfalso; apply hgate; simp [hsh, hcr]
-        | some h => exact hs h hsh
-      have := execG_safe memBad (by decide) (HInv c.cap) c.toCfg.cached c.toCfg.onCb (onCb_ok c hc) _
-        (api_safe c.cap c.fuel a hop (s.handle.getD {}) hh)
-        { s.world with xfer := 0, sched := sched, faults := faults, bus := [], cbs := [],
-                       cache := if a.isCreate then Cache.fresh else s.world.cache }
+        | some h => exact hs.1 h hsh
+      have hsz0 : SzOk (startWorld s.world sched faults (if a.isCreate then Cache.fresh else s.world.cache)) := by
+        unfold SzOk startWorld
+        show (if a.isCreate = true then Cache.fresh else s.world.cache).size = 0x71
+        split
+        · exact fresh_sz
+        · exact hs.2
+      have := execG_safe memBad (HInv c.cap) c.toCfg.cached c.toCfg.onCb (onCb_ok c hc hv) _
+        (api_safe c.cap c.fuel a hop (s.handle.getD {}) hh) ((contract_api c.cap c.fuel a hov).all _) _ hsz0
       unfold exec
-      generalize execG c.toCfg.cached c.toCfg.onCb (Api.prog c.cap c.fuel a (s.handle.getD {})) _ = out at this
+      generalize hout : execG c.toCfg.cached c.toCfg.onCb (Api.prog c.cap c.fuel a (s.handle.getD {})) _ = out
+      have this' : SafeOut memBad (fun rh => HInv c.cap rh.2) out := by rw [← hout]; exact this
       cases out with
-      | ub u w => exact ⟨hs, fun u' hu' => by cases hu'; exact this⟩
+      | ub u w => exact ⟨⟨hs.1, this'.2⟩, fun u' hu' => by cases hu'; exact this'.1⟩
       | done rh w =>
         obtain ⟨r', h⟩ := rh
-        exact ⟨fun h' e => by cases e; exact this, fun u hu => by cases hu⟩
+        exact ⟨⟨fun h' e => by cases e; exact this'.1, this'.2⟩, fun u hu => by cases hu⟩
 
 /-- **C08.** The same for every history. -/
-theorem C08_memory_safe (c : SysCfg) (hc : c.Fits) (s : Sys) (hs : SysInv c.cap s) (ops : List Op)
-    (hops : ∀ op ∈ ops, op.Fits) :
+theorem C08_memory_safe (c : SysCfg) (hc : c.Fits) (hv : c.Valid) (s : Sys) (hs : SysInv c.cap s) (ops : List Op)
+    (hops : ∀ op ∈ ops, op.Fits ∧ op.Valid) :
     SysInv c.cap (Sys.run c s ops).1 ∧ ∀ u, Obs.ub u ∈ (Sys.run c s ops).2 → ¬memBad u := by
   induction ops generalizing s with
   | nil => exact ⟨hs, fun u hu => by cases hu⟩
   | cons op ops ih =>
-    have h1 := C08_step c hc s hs op (hops op (List.mem_cons_self ..))
+    have hopv := hops op (List.mem_cons_self ..)
+    have h1 := C08_step c hc hv s hs op hopv.1 hopv.2
     have h2 := ih (s.step c op).1 h1.1 (fun o ho => hops o (List.mem_cons_of_mem _ ho))
     simp only [Sys.run]
     refine ⟨h2.1, fun u hu => ?_⟩
@@ -221,13 +230,15 @@ theorem C08_memory_safe (c : SysCfg) (hc : c.Fits) (s : Sys) (hs : SysInv c.cap 
     · exact h1.2 u e.symm
     · exact h2.2 u e
 
-/-- the fresh system (no handle yet) satisfies the invariant for every buffer size -/
-theorem sysInv_fresh (cap : Nat) (w : World) : SysInv cap { world := w, handle := none } := by
-  intro h e; cases e
+/-- the fresh system (no handle yet, shadow arrays as `sx127x_create` leaves them) satisfies the
+    invariant for every buffer size -/
+theorem sysInv_fresh (cap : Nat) (chip : Chip) : SysInv cap { world := { chip := chip }, handle := none } := by
+  refine And.intro (fun h e => ?_) fresh_sz
+  cases e
 
 /-- non-vacuity: the excluded classes are inhabited by requests the model does make — a buffer
     access outside `packet` is a node the model can reach (`memBad .oobPacket`), and a concrete
     history delivers a packet through the guarded copy -/
-example : memBad .oobPacket ∧ memBad .oobCaller ∧ memBad .nullDeref ∧ memBad .divZero ∧ memBad .shiftNeg := by decide
+example : memBad .oobPacket ∧ memBad .oobShadow ∧ memBad .oobCaller ∧ memBad .nullDeref ∧ memBad .divZero ∧ memBad .shiftNeg := by decide
 
 end Sx
